@@ -1,2 +1,3 @@
+import Proofs.Layout
 import Proofs.LayoutRoles
 import Proofs.Paginate
